@@ -84,6 +84,16 @@ class Module:
         except Exception as e:
             raise AnalysisError('constant %s in %s is not a literal: %s' % (name, self.relpath, e))
 
+    def const_keys(self, name: str) -> List[Any]:
+        """Keys of a module-level dict display (values need not be literals)."""
+        vals = self.assigns.get(name)
+        if not vals or not isinstance(vals[-1], ast.Dict):
+            raise AnalysisError('constant dict %s not found in %s' % (name, self.relpath))
+        try:
+            return [ast.literal_eval(k) for k in vals[-1].keys]
+        except Exception as e:
+            raise AnalysisError('keys of %s in %s are not literals: %s' % (name, self.relpath, e))
+
     def loc(self, node: ast.AST) -> str:
         return '%s:%s' % (self.relpath, getattr(node, 'lineno', '?'))
 
